@@ -414,6 +414,154 @@ theorem preselect_old_leaves_permitted_set :
     refine ⟨_, ⟨"c1", ⟨y, hy, hv⟩, rfl⟩, ?_⟩
     simp [wM, wC1]
 
+/-! ### the whole Multiband_amplifier branch (`multibandDesign`) -/
+
+theorem findTypeVarietyE_mem (es : List (String × List String)) (picks : List String) (t : String) :
+    t ∈ findTypeVarietyE es picks ↔ picks ≠ [] ∧ ∃ e ∈ es, e.1 = t ∧ ∀ p ∈ picks, p ∈ e.2 := by
+  simp only [findTypeVarietyE]
+  by_cases hp : picks = []
+  · subst hp; simp
+  · have : picks.isEmpty = false := by simpa [List.isEmpty_iff] using hp
+    simp only [this, Bool.false_eq_true, if_false, List.mem_map, List.mem_filter, List.all_eq_true,
+      List.contains_iff_mem, ne_eq, hp, not_false_eq_true, true_and]
+    constructor
+    · rintro ⟨e, ⟨he, hall⟩, rfl⟩; exact ⟨e, he, rfl, hall⟩
+    · rintro ⟨e, he, rfl, hall⟩; exact ⟨e, ⟨he, hall⟩, rfl⟩
+
+private theorem multibandDesign_unfold (lib : List (AmpSpec ℝ)) (ext : ℝ) (c : NodeCtx) (ok : Bool)
+    (bts : List (BandTarget ℝ)) (d : MultiDesign) (h : multibandDesign lib ext c ok bts = some d) :
+    d.permitted = nodeRestrictionsMulti lib c (bts.map (fun bt => bt.band)) ∧
+    preselect lib ext d.permitted bts = some d.preselected ∧
+    pickAll lib ext ok d.preselected bts = some d.picks ∧
+    d.candidates = findTypeVariety lib d.picks ∧ d.candidates ≠ [] := by
+  simp only [multibandDesign] at h
+  split at h
+  · cases h
+  · rename_i redfa hpre
+    split at h
+    · cases h
+    · rename_i picks hpick
+      split at h
+      · cases h
+      · rename_i t ts hc
+        simp only [Option.some.injEq] at h
+        subst h
+        exact ⟨rfl, hpre, hpick, hc.symm, by simp⟩
+
+/-- **(a)** when all per-band picks are members of ONE permitted entry `m` (and no other entry of the library
+lists them all — libraries with twin entries are out of scope), the node receives exactly that entry:
+`type_variety = m`, a permitted multiband type whose members contain every pick -/
+theorem multiband_choice_sound_if_single_entry (lib : List (AmpSpec ℝ)) (ext : ℝ) (c : NodeCtx) (ok : Bool)
+    (bts : List (BandTarget ℝ)) (d : MultiDesign) (m : String) (ms : List String)
+    (h : multibandDesign lib ext c ok bts = some d)
+    (hm : (m, ms) ∈ entriesOf lib) (hperm : m ∈ d.permitted) (hall : ∀ p ∈ d.picks, p ∈ ms)
+    (huniq : ∀ e ∈ entriesOf lib, (∀ p ∈ d.picks, p ∈ e.2) → e.1 = m) :
+    d.candidates.head? = some m ∧ (∀ t ∈ d.candidates, t = m) ∧ m ∈ d.permitted ∧ ∀ p ∈ d.picks, p ∈ ms := by
+  obtain ⟨_, _, _, hc, hne⟩ := multibandDesign_unfold lib ext c ok bts d h
+  have hallm : ∀ t ∈ d.candidates, t = m := by
+    intro t ht
+    rw [hc, findTypeVariety, findTypeVarietyE_mem] at ht
+    obtain ⟨_, e, he, rfl, hp⟩ := ht
+    exact huniq e he hp
+  refine ⟨?_, hallm, hperm, hall⟩
+  cases hcd : d.candidates with
+  | nil => exact absurd hcd hne
+  | cons t ts => simp [hallm t (by rw [hcd]; simp)]
+
+/-- **(b) the open finding `multiband-per-band-choices-form-unpermitted-type`, characterised**: (twin entries
+excluded) the type the node receives lies outside the permitted set **iff** the independently chosen per-band
+picks are not jointly listed by any permitted entry -/
+theorem multiband_result_unpermitted_iff (lib : List (AmpSpec ℝ)) (ext : ℝ) (c : NodeCtx) (ok : Bool)
+    (bts : List (BandTarget ℝ)) (d : MultiDesign) (t : String)
+    (h : multibandDesign lib ext c ok bts = some d) (ht : d.candidates.head? = some t)
+    (huniq : ∀ e ∈ entriesOf lib, ∀ e' ∈ entriesOf lib, (∀ p ∈ d.picks, p ∈ e.2) → (∀ p ∈ d.picks, p ∈ e'.2) → e.1 = e'.1) :
+    t ∉ d.permitted ↔ ¬ ∃ e ∈ entriesOf lib, e.1 ∈ d.permitted ∧ ∀ p ∈ d.picks, p ∈ e.2 := by
+  obtain ⟨_, _, _, hc, _⟩ := multibandDesign_unfold lib ext c ok bts d h
+  have htm : t ∈ d.candidates := by
+    cases hcd : d.candidates with
+    | nil => rw [hcd] at ht; simp at ht
+    | cons x xs => rw [hcd] at ht; simp only [List.head?_cons, Option.some.injEq] at ht; simp [ht]
+  rw [hc, findTypeVariety, findTypeVarietyE_mem] at htm
+  obtain ⟨_, et, het, hname, hpt⟩ := htm
+  constructor
+  · rintro hnot ⟨e, he, hperm, hp⟩
+    have := huniq e he et het hp hpt
+    rw [this, hname] at hperm
+    exact hnot hperm
+  · intro hno hperm
+    exact hno ⟨et, het, by rw [hname]; exact hperm, hpt⟩
+
+/-- the witness of the open finding (library of corpus/C10/per_band_mix.json): permitted `m0=(c1,l0)`,
+`m2=(c1,l1)`, `m3=(c0,l0)`; the independent picks `l1` (a member of m2) and `c0` (a member of m3) are grouped only
+by `m1=(c0,l1)`, which is not permitted -/
+theorem per_band_mix_witness :
+    let es := [("m0", ["c1", "l0"]), ("m1", ["c0", "l1"]), ("m2", ["c1", "l1"]), ("m3", ["c0", "l0"])]
+    let permitted := ["m0", "m2", "m3"]
+    findTypeVarietyE es ["l1", "c0"] = ["m1"] ∧ "m1" ∉ permitted ∧
+    (∀ p ∈ ["l1", "c0"], ∃ e ∈ es, e.1 ∈ permitted ∧ p ∈ e.2) ∧
+    ¬ ∃ e ∈ es, e.1 ∈ permitted ∧ ∀ p ∈ ["l1", "c0"], p ∈ e.2 := by
+  decide
+
+private theorem pickAll_forall₂ (lib : List (AmpSpec ℝ)) (ext : ℝ) (ok : Bool) (redfa : List String) :
+    ∀ (bts : List (BandTarget ℝ)) (picks : List String), pickAll lib ext ok redfa bts = some picks →
+      List.Forall₂ (fun bt pk => bandPick lib ext ok redfa bt = some pk) bts picks := by
+  intro bts
+  induction bts with
+  | nil => intro picks h; simp only [pickAll, Option.some.injEq] at h; subst h; exact List.Forall₂.nil
+  | cons bt rest ih =>
+    intro picks h
+    simp only [pickAll] at h
+    split at h
+    · cases h
+    · rename_i p hp
+      split at h
+      · cases h
+      · rename_i ps hps
+        simp only [Option.some.injEq] at h
+        subst h
+        exact List.Forall₂.cons hp (ih ps hps)
+
+/-- **(c) each band's pick, by the single-band theorems**: the pick of a band is the result of `select_edfa` on the
+library restricted to the preselected models covering that band; it is capable whenever one of those models is,
+no capable one is quieter, and — when that restriction list is not empty — it is a preselected model covering the
+band, hence a member of a permitted multiband entry -/
+theorem band_pick_spec (lib : List (AmpSpec ℝ)) (ext : ℝ) (ok : Bool) (r redfa : List String) (bts : List (BandTarget ℝ))
+    (bt : BandTarget ℝ) (pk : String) (hpre : preselect lib ext r bts = some redfa)
+    (h : bandPick lib ext ok redfa bt = some pk) :
+    ∃ ch, selectEdfa (selectionLibrary lib (bandRestrictions lib redfa bt.band)) ok bt.gain bt.power ext = some ch ∧
+      ch.variety = pk ∧
+      (∀ a ∈ selectionLibrary lib (bandRestrictions lib redfa bt.band), (a.raman = false ∨ ok = true) →
+        0 < gainMinAttr a bt.gain → 0 < powerAttr a bt.gain bt.power ext →
+        0 < ch.gainMin ∧ 0 < ch.power ∧ nfLt (edfaNf a bt.gain) ch.nf = false) ∧
+      (bandRestrictions lib redfa bt.band ≠ [] →
+        (∃ a, lookup lib pk = some a ∧ a.covers bt.band = true) ∧
+        ∃ m ∈ r, ∃ am, lookup lib m = some am ∧ pk ∈ am.multiBand.getD []) := by
+  simp only [bandPick, Option.map_eq_some_iff] at h
+  obtain ⟨ch, hsel, rfl⟩ := h
+  refine ⟨ch, hsel, rfl, ?_, ?_⟩
+  · intro a ha hr hg hp
+    have hcap : ∃ a ∈ selectionLibrary lib (bandRestrictions lib redfa bt.band),
+        (a.raman = false ∨ ok = true) ∧ 0 < gainMinAttr a bt.gain ∧ 0 < powerAttr a bt.gain bt.power ext :=
+      ⟨a, ha, hr, hg, hp⟩
+    obtain ⟨c1, c2⟩ := capable_if_any_capable _ ok _ _ _ ch hcap hsel
+    exact ⟨c1, c2, nf_minimal_among_capable _ ok _ _ _ ch hsel a ha hr hg hp⟩
+  · intro hne
+    obtain ⟨hin, _⟩ := selected_in_restrictions lib _ ok _ _ _ ch hne hsel
+    simp only [bandRestrictions, List.mem_filter] at hin
+    obtain ⟨hmem, hcov⟩ := hin
+    refine ⟨?_, preselect_sound lib ext r bts redfa hpre ch.variety hmem⟩
+    cases hl : lookup lib ch.variety with
+    | none => simp [hl] at hcov
+    | some a => exact ⟨a, rfl, by simpa [hl] using hcov⟩
+
+/-- … for every band of a designed node -/
+theorem multiband_band_picks (lib : List (AmpSpec ℝ)) (ext : ℝ) (c : NodeCtx) (ok : Bool)
+    (bts : List (BandTarget ℝ)) (d : MultiDesign) (h : multibandDesign lib ext c ok bts = some d) :
+    preselect lib ext d.permitted bts = some d.preselected ∧
+    List.Forall₂ (fun bt pk => bandPick lib ext ok d.preselected bt = some pk) bts d.picks := by
+  obtain ⟨_, hpre, hpick, _, _⟩ := multibandDesign_unfold lib ext c ok bts d h
+  exact ⟨hpre, pickAll_forall₂ lib ext ok d.preselected bts d.picks hpick⟩
+
 /-! ### non-vacuity -/
 example : restrictionList ⟨"", some [], some ["b"], some ["p"]⟩ = ["b"] := by decide
 example : nfLt (none : Option ℝ) (some 3) = true := rfl
